@@ -140,7 +140,7 @@ Print Assumptions C18_osc_bel.
 Check C18_osc_st : forall p fs,
   ground (vt p) -> osc_ok fs ->
   process p (osc_bytes_st fs) =
-  Ok (mkParser p_init (scr p) (log p ++ osc_events fs ++ [EUnhEscape None None 92]) (resizing p)).
+  Ok (mkParser p_init (scr p) (log p ++ osc_events fs) (resizing p)).
 Print Assumptions C18_osc_st.
 Check C18_char : forall p c q,
   ground (vt p) -> is_scalar c = true -> c <> 27 ->
